@@ -18,7 +18,9 @@ RULE = ('Well-typed terminating programs drawn from the typed generator G '
         'compiled at O0/O1/O2 with and without -g; trace (typed PRINT items, '
         'prompts, INPUT, DATA reads, device calls) and outcome (end, or '
         'run-time error class and statement line) compared with the '
-        'reference interpreter R.  Non-trivial: accepted, R supports it, >= 3 '
+        'reference interpreter R; each program with an IF is judged a second '
+        'time with its IF conditions negated (the skipped branches run).  '
+        'Non-trivial: accepted, R supports it, >= 3 '
         'events and >= 2 of {procedure call, loop with >= 2 iterations, '
         'array or record access, implicit conversion, GOTO/GOSUB, run-time '
         'error outcome}.  Distinct by hash of (text, script).')
@@ -113,6 +115,20 @@ def judge(prog, script, style, cfg, configs=CONFIGS):
 def check(case, cfg):
     (prog, script, stats), style = case
     failures, info = judge(prog, script, style, cfg)
+    flipped_run = False
+    if not failures and info['accepted'] and not info['inconclusive']:
+        # the same program with its IF conditions negated: the branches the
+        # first run skipped are executed and judged too
+        from qv.variants import flipped
+        fprog = flipped(prog)
+        if fprog is not None:
+            ffail, finfo = judge(fprog, script, style, cfg)
+            flipped_run = True
+            info['features'] = set(info['features']) | set(
+                finfo['features'])
+            if ffail:
+                failures = ffail
+                prog = fprog
     from qv.runner import digest
     key = digest([info['text'], script])
     f = info['features']
@@ -124,6 +140,8 @@ def check(case, cfg):
     nontrivial = info['accepted'] and not info['inconclusive'] and \
         info['events'] >= 3 and score >= 2
     cls = ['ref:' + info['ref_outcome']] + sorted('f:' + x for x in f)
+    if flipped_run:
+        cls.append('flipped_variant_judged')
     for k in ('byref_arg', 'recursion', 'array_access', 'field_access',
               'func_call', 'sub_call', 'select', 'gosub', 'goto', 'input',
               'read', 'device', 'deftype', 'const', 'static_decl',
@@ -137,6 +155,7 @@ def check(case, cfg):
             fl.append({'bucket': b, 'detail': d, 'case': enc})
     return {'key': key, 'nontrivial': nontrivial, 'classes': cls,
             'failures': fl, 'inconclusive': info['inconclusive'],
+            'extra_evals': 1 if flipped_run else 0,
             'sample': cases.sample_of(info['text'], script,
                                       ref_outcome=info['ref_outcome'])
             if nontrivial else None}
